@@ -122,12 +122,28 @@ def run(ctx, H):
                                 "case": culprit, "stderr": ex.err[-800:]})
         ctx.coverage.update({"evaluations": len(cases), "distinct_nontrivial": 0, "rule": "aborted", "samples": [culprit]})
         return
+    # the built-in error types are behaviours of the error type too: building their message must not panic either
+    builtin = []
+    for c in cases:
+        if c.entry.rec_only or getattr(c, "wire_payload", None) is not None:
+            continue
+        if ctx.tier == "quick" and ctx.rng.random() < 0.5:
+            continue
+        builtin.append(E.Case(c.entry, c.payload, c.src, [], False, "break", c.nfaults, ctx.rng.choice(["json", "qp"])))
+    bobs = E.run_cases(H, builtin)
+    nb = 0
+    for c, o in zip(builtin, bobs):
+        if "panic" in o["res"]:
+            nb += 1
+            if nb <= 4:
+                ctx.violation("builtin-panic-%d" % nb, dict(c.describe(), kind="deserialize panicked with a built-in error type (JsonError / QueryParamError)", impl=o))
+    ctx.coverage["builtin_error_type_runs"] = len(builtin)
     bads = E.decide(ctx, H, "c12", cases, obs, "corr_c12",
                     [("mon_c12", "deserialize panicked instead of returning Ok or Err")], "corr_c12 (Ok / Err / panic class of the outcome)")
     ctx.coverage.update({
         "evaluations": len(cases), "distinct_nontrivial": E.nontrivial(cases, obs),
         "rule": "every catalogue type x (mutated valid payloads, %d adversarial shapes incl. duplicate keys / NaN / empty containers / non-negative NegativeInteger, "
-                "repeated keys (member repeated / repeated while another is dropped / given three times) at every object of a valid payload, a wrong kind at every position, depth 127/128 arrays/objects for serde_json::Value targets) x both value sources x all script kinds, each under catch_unwind "
+                "repeated keys (member repeated / repeated while another is dropped / given three times) at every object of a valid payload, a wrong kind at every position, depth 127/128 arrays/objects for serde_json::Value targets) x both value sources x all script kinds, plus the same payloads under JsonError / QueryParamError (their message building must not panic), each under catch_unwind "
                 "in a separate harness process; non-trivial = distinct (type,payload,script) whose run calls the error type or returns Ok" % len(ADVERSARIAL),
         "input_distribution": E.distribution(cases, obs),
         "samples": [cases[i].describe() for i in (1, len(cases) // 2)] + [{"type": cases[-1].entry.rust(), "payload": "depth-128 nesting", "script_default": cases[-1].default}],
